@@ -237,7 +237,7 @@ fn gen_reg(g: &mut Gen, t: reg::Table) -> Item {
 
 /// An integer that `t` does not register (and, if `private_ok` is false, possibly in the private
 /// range, which is then a fault too).
-fn gen_unregistered(g: &mut Gen, t: reg::Table, has_private: bool) -> Item {
+pub fn gen_unregistered(g: &mut Gen, t: reg::Table, has_private: bool) -> Item {
     loop {
         let c = match g.below(6) {
             0 => g.range_i64(-70, 70),
@@ -267,7 +267,7 @@ fn gen_unregistered(g: &mut Gen, t: reg::Table, has_private: bool) -> Item {
     }
 }
 
-fn gen_out_of_range(g: &mut Gen) -> Item {
+pub fn gen_out_of_range(g: &mut Gen) -> Item {
     Item::Int(*g.pick(&[i64::MAX as i128 + 1, u64::MAX as i128, i64::MIN as i128 - 1, -(1i128 << 64), (1i128 << 63) + 12345]))
 }
 
@@ -289,7 +289,30 @@ pub const REG_VALUE_NAMES: &[&str] = &[
 
 /// Value of a key-type-specific parameter or other uninterpreted slot: any value, with registered
 /// numbers, registered names and coordinate-sized byte strings over-represented.
+/// A value nested `d` levels deep (arrays, one-entry maps, tags), well inside the CBOR parser's
+/// recursion limit of 256 wherever the generators place it.
+pub fn gen_deep_value(g: &mut Gen) -> Item {
+    let d = match g.below(3) {
+        0 => 10 + g.below(30),
+        1 => 40 + g.below(90),
+        _ => 130 + g.below(51),
+    };
+    let mut v = Item::Int(g.range_i64(-30, 30) as i128);
+    let kind = g.below(4);
+    for _ in 0..d {
+        v = match if kind == 3 { g.below(3) } else { kind } {
+            0 => Item::Array(vec![v]),
+            1 => Item::Map(vec![(Item::Int(0), v)]),
+            _ => Item::Tag(60000, Box::new(v)),
+        };
+    }
+    v
+}
+
 pub fn gen_param_value(g: &mut Gen) -> Item {
+    if g.ratio(1, 60) {
+        return gen_deep_value(g);
+    }
     match g.weighted(&[6, 1, 1, 1]) {
         0 => gen_value(g, 2, true),
         1 => Item::Text((*g.pick(REG_VALUE_NAMES)).to_string()),
@@ -401,7 +424,30 @@ fn gen_nonempty_bstr_field(g: &mut Gen, f: &mut Faults, name: &'static str) -> I
     Item::Bytes(g.nonempty_bytes())
 }
 
+/// Value of label 7 holding a chain of `c` nested counter-signatures, each level carried in the
+/// protected or the unprotected header of the one above, sometimes in the array form.
+fn gen_cs_chain(g: &mut Gen, c: usize) -> Item {
+    let inner = if c > 1 { Item::Map(vec![(Item::Int(7), gen_cs_chain(g, c - 1))]) } else { Item::Map(vec![]) };
+    let (prot, unprot) = if c > 1 && g.bool() { (Wrapped::new(inner), Item::Map(vec![])) } else { (Item::Bytes(vec![]), inner) };
+    let sig = Item::Array(vec![prot, unprot, Item::Bytes(vec![c as u8])]);
+    if g.ratio(1, 4) {
+        Item::Array(vec![sig, Item::Array(vec![Item::Bytes(vec![]), Item::Map(vec![]), Item::Bytes(vec![0xcc])])])
+    } else {
+        sig
+    }
+}
+
+/// The maximum counter-signature nesting the decoder admits (`MAX_COUNTER_SIG_DEPTH` in the crate).
+pub const CS_LIMIT: usize = 8;
+
 fn gen_counter_sig(g: &mut Gen, f: &mut Faults, depth: usize) -> Item {
+    g.cs_level += 1;
+    let r = gen_counter_sig_at(g, f, depth);
+    g.cs_level -= 1;
+    r
+}
+
+fn gen_counter_sig_at(g: &mut Gen, f: &mut Faults, depth: usize) -> Item {
     if f.take(g, "countersig-bad") {
         return match g.below(6) {
             0 => Item::Array(vec![]),
@@ -538,6 +584,12 @@ pub fn gen_header(g: &mut Gen, f: &mut Faults, depth: usize) -> Item {
     }
     if depth > 0 && g.ratio(1, if dense { 2 } else { 6 }) {
         entries.push((Item::Int(7), gen_counter_sig(g, f, depth - 1)));
+    } else if g.cs_level < CS_LIMIT && g.ratio(1, 30) {
+        // rarely: a chain of counter-signatures using up to all the nesting the decoder still admits
+        // here (whatever structure this header belongs to: body, signer, nested recipient ...)
+        let room = CS_LIMIT - g.cs_level;
+        let c = if g.bool() { room } else { 1 + g.below(room) };
+        entries.push((Item::Int(7), gen_cs_chain(g, c)));
     }
     // extras (rarely: dozens of them, with labels of mixed encoded lengths)
     let many = g.ratio(1, 25);
@@ -547,7 +599,14 @@ pub fn gen_header(g: &mut Gen, f: &mut Faults, depth: usize) -> Item {
         if entries.iter().any(|(k, _)| label_eq(k, &l)) {
             continue;
         }
-        entries.push((l, if many { Item::Int(i as i128) } else { gen_value(g, 2, true) }));
+        let v = if many {
+            Item::Int(i as i128)
+        } else if g.ratio(1, 60) {
+            gen_deep_value(g)
+        } else {
+            gen_value(g, 2, true)
+        };
+        entries.push((l, v));
     }
     if f.take(g, "non-label-key") {
         let at = g.below(entries.len() + 1);
